@@ -141,6 +141,16 @@ CLAIMED = {
                   "create_data_frame (a failure after the group exists - wrong unit type, dtype/data mismatch - and a conversion "
                   "failure inside DataSet.append after the resize are candidate findings F4, documented in DESIGN.md, outside the "
                   "contracts), dimension linking, failures inside libhdf5.", ref="7 C12"),
+ "C20": dict(text="Partial (nixio side): deductive proof for Block._copy_objects (the common path of copying arrays, frames, tags and "
+                  "multi-tags into a block) that an existing destination name is refused before anything is copied, that the "
+                  "destination name is the supplied name or else the source's, that the HDF5 copy is asked for exactly the "
+                  "requested id policy / destination / class container, once, and that what is returned identifies the COPY (its "
+                  "unique destination name, not an id the original may share); and for the id-regeneration callback that EVERY "
+                  "copied object carrying an id - groups and datasets (properties) alike - receives a fresh well-formed id and "
+                  "nothing else is written. Completeness, independence and internal-link preservation of the copy are H5Ocopy "
+                  "facts and are assumed.",
+             note="Assumed: H5Group.copy (H5Ocopy + visititems), uuid4. The public create_*(copy_from=...) wrappers, "
+                  "File.create_block's copy branch and copy_section are not under contract (thin delegation).", ref="7 C20"),
 }
 NA_REASON = "check not built yet in this round (design in DESIGN.md section 7); will be claimed once its contracts discharge"
 checks, na = [], []
